@@ -49,6 +49,21 @@ def cases(tier, seed):
         o = obj()
         for f in (fns if tier != 'quick' else rng.sample(fns, 8)):
             add(f, o, ('objfn', 'unordered'))
+    # the same functions over ARRAYS of 0..5 objects whose key sets overlap (also between objects that are not neighbours)
+    afns = ['$keys($)', '$count($keys($))', '$keys(a)', '$spread($)', '$merge($)', '$lookup($, "a")', '$lookup($, "b")', '$keys($spread($))', '$merge($spread($))', '$count($spread($))', 'a.$keys($)',
+            '$keys($) ~> $sort()', '$count($keys($)) = $count($distinct($keys($)))', '$keys($merge($)) ~> $sort()', '$.*', '$lookup($, "c") ~> $count()', '$each($merge($), function($v,$k){$k})']
+    small = [{}, {'a': 1}, {'b': 2}, {'a': 3}, {'a': 1, 'b': 2}, {'c': [1]}, {'b': 'x', 'c': 0}, {'a': {'a': 1}}]
+    for L in range(0, 4):
+        for objs in itertools.product(small, repeat=L):
+            if tier == 'quick' and L == 3 and rng.random() < 0.8:
+                continue
+            for f in (rng.sample(afns, 3) if tier == 'quick' else afns):
+                add(f, list(objs), ('objfn-array', 'unordered'))
+                if rng.random() < 0.2:
+                    add(f, {'a': list(objs)}, ('objfn-array', 'unordered'))
+    for i in range(300 if tier == 'quick' else 20000):
+        objs = [obj(1) for _ in range(rng.randint(3, 6))]
+        add(rng.choice(afns), objs, ('objfn-array', 'unordered'))
     for f in fns:
         add(f, [obj(), obj()], ('objfn', 'unordered'))
         add(f, 5, ('objfn',)); add(f, 'str', ('objfn',))
@@ -58,5 +73,5 @@ def run(tier, seed, replay=None):
     return simple_run('C14', tier, seed, replay,
         'groupings with 1..3 key/value pairs whose keys map items onto 1..4 strings (collisions, absent and non-string keys), values that are members, '
         'aggregates or nested constructors; object constructors as steps and stand-alone; grouping/predicate shape errors; object functions and their laws on '
-        'random null-free objects (results over multi-member objects compared as multisets); distinct = distinct (expression, input)',
+        'random null-free objects and on arrays of 0..6 objects with overlapping key sets (exhaustive over an 8-object alphabet up to length 3) (results over multi-member objects compared as multisets); distinct = distinct (expression, input)',
         cases)
